@@ -27,7 +27,63 @@ HOOKS = [
     ("out_velocity", "roll_pass/hookimpls/profile.py", "out_velocity"),
     ("pass_velocity", "roll_pass/hookimpls/symmetric_roll_pass.py", "velocity"),
     ("working_velocity", "roll_pass/hookimpls/roll.py", "working_velocity"),
+    # what the two guards of the round trip  velocity -> working velocity -> velocity  rest on
+    ("neutral_angle", "roll_pass/hookimpls/roll.py", "neutral_angle"),
+    ("exit_angle", "roll_pass/hookimpls/roll.py", "exit_angle"),
+    ("exit_point", "roll_pass/hookimpls/base_roll_pass.py", "exit_point"),
+    # the flux a unit reports and how a velocity travels through units that are no roll passes (pyroll/core/unit/hookimpls.py)
+    ("volume_flux", "unit/hookimpls.py", "volume_flux"),
+    ("unit_out_velocity", "unit/hookimpls.py", "out_velocity"),
+    ("unit_velocity", "unit/hookimpls.py", "velocity"),
 ]
+
+
+# ---- `name = A if T else B` --------------------------------------------------------------------------------
+
+def _split_conditional_assignments(fn: ast.FunctionDef):
+    """`x = A if T else B; rest`  ->  `if T: x = A; rest  else: x = B; rest`  (same evaluation order, same values);
+    pyexpr.extract_function handles the result, the conditional expression itself is outside its subset"""
+    import copy
+
+    def rewrite(stmts):
+        for i, st in enumerate(stmts):
+            if isinstance(st, ast.Assign) and len(st.targets) == 1 and isinstance(st.targets[0], ast.Name) \
+                    and isinstance(st.value, ast.IfExp):
+                rest = stmts[i + 1:]
+
+                def branch(val):
+                    a = ast.Assign(targets=copy.deepcopy(st.targets), value=copy.deepcopy(val), lineno=st.lineno)
+                    return rewrite([a] + copy.deepcopy(rest))
+                new = ast.If(test=copy.deepcopy(st.value.test), body=branch(st.value.body), orelse=branch(st.value.orelse))
+                return stmts[:i] + [new]
+        return stmts
+    fn2 = copy.deepcopy(fn)
+    fn2.body = rewrite(fn2.body)
+    return ast.fix_missing_locations(fn2)
+
+
+def hookimpl_index(relpaths, repo=None):
+    """like gen.hookimpl_index, with conditional local assignments split into branches first"""
+    idx = {}
+    for rel in relpaths:
+        path = os.path.join(repo or REPO, "pyroll", "core", rel)
+        src = open(path).read()
+        for node in ast.parse(src).body:
+            if not isinstance(node, ast.FunctionDef):
+                continue
+            for dec in node.decorator_list:
+                info = pyexpr._decorator_info(dec)
+                if info is None:
+                    continue
+                impl = pyexpr.HookImpl()
+                impl.module = rel
+                impl.host, impl.hook, impl.tier, impl.wrapper = info
+                impl.fn = node.name
+                impl.lineno = node.lineno
+                impl.src = ast.get_source_segment(src, node)
+                pyexpr.extract_function(_split_conditional_assignments(node), impl)
+                idx[(rel, impl.fn)] = impl
+    return idx
 
 
 # ---- small AST helpers --------------------------------------------------------------------------------
@@ -453,7 +509,7 @@ def emit(ctx):
         lines.append(f"def {pre}_tol_e : Expr := {pyexpr.lean_expr(info['test']['tol'])}")
         lines.append(f"def {key}_shape : Velo.Shape :=\n    {lean_shape(info)}")
         lines.append("")
-    idx = gen.hookimpl_index(sorted({rel for (_, rel, _) in HOOKS}))
+    idx = hookimpl_index(sorted({rel for (_, rel, _) in HOOKS}))
     found, table = {}, []
     for (name, rel, fn) in HOOKS:
         impl = idx.get((rel, fn))
